@@ -2,6 +2,7 @@
 written into the evidence, and the observation floors below which a run is
 inconclusive rather than 'held'."""
 
+import json
 import os
 
 import common
@@ -254,5 +255,28 @@ def replay(prop, path, meta):
             return rc
         print("replay by generator index: " + meta.get("replay", "?"))
         return os.system(meta.get("replay", "false")) >> 8
+    if meta.get("worker") and "worker_seed" in meta:
+        # CLI case: the worker regenerates the workspace from its seed and applies its oracle again (several
+        # times, because some cases depend on the thread schedule)
+        import cliprops
+        fn = getattr(cliprops, meta["worker"])
+        b = cliprops.rq()
+        extra = ()
+        if meta["worker"] == "c06_tsan_worker":
+            extra = (common.build_tsan_binary(),)
+        if meta["worker"] in ("c18_worker", "c15_worker"):
+            common.build_shim()
+        hits = 0
+        for i in range(5):
+            res = fn((meta["worker_seed"], b) + extra)
+            for v in res.get("violations", []):
+                hits += 1
+                print("VIOLATED %s %s :: %s" % (prop, json.dumps(v["sig"], sort_keys=True), v["detail"][:800]))
+            if hits:
+                break
+        if hits:
+            return 1
+        print("HELD (5 executions of %s with seed %d)" % (meta["worker"], meta["worker_seed"]))
+        return 0
     print("no replay engine for this record")
     return 2
